@@ -88,3 +88,9 @@ package rawmessagesfilter
 //@     invariant [earlier-log-kept] ndelivered >= old(ndelivered) && (forall j int :: 0 <= j && j < old(ndelivered) ==> delivered[j] == old(delivered[j]))
 //@     invariant [inv.cache] forall k int, i int :: has(f.futureCache, k) && 0 <= i && i < len(f.futureCache[k]) ==> f.futureCache[k][i].BlockHeight() == k && f.futureCache[k][i].InstanceId() == f.instanceId && f.futureCache[k][i].SenderMemberId() != f.myMemberId
 //@     invariant [messages-of-this-height] forall i int :: 0 <= i && i < len(messages) ==> messages[i].BlockHeight() == height && messages[i].InstanceId() == f.instanceId && messages[i].SenderMemberId() != f.myMemberId
+
+// construction: an empty cache, no term installed, wired to the node's state, instance and member id
+//@ func NewConsensusMessageFilter
+//@   props C17 C12
+//@   ensures [wired] result != nil && result.state == state && result.instanceId == instanceId && result.myMemberId == myMemberId
+//@   ensures [empty] result.futureCache != nil && (forall k int :: !has(result.futureCache, k)) && result.consensusMessagesHandler == nil && result.latestFutureBlockHeight == 0
